@@ -210,6 +210,21 @@ func signedOf(n *big.Int, t types.Type) *big.Int {
 
 const maxReplayLen = 1 << 16
 
+// goTypeName writes t as it must be spelled inside the package of the
+// function under replay, remembering the imports that spelling needs.
+func (w *World) goTypeName(c *Ctx, t types.Type) string {
+	return types.TypeString(t, func(p *types.Package) string {
+		if c.Fn != nil && c.Fn.Pkg != nil && p == c.Fn.Pkg.Pkg {
+			return ""
+		}
+		if w.replayImports == nil {
+			w.replayImports = map[string]string{}
+		}
+		w.replayImports[p.Path()] = p.Name()
+		return p.Name()
+	})
+}
+
 // modelValue extracts the concrete value of term x (type t) from the model
 // of o, as a Go expression. heapState selects the heap version for contents.
 func (w *World) modelValue(o *Obligation, x string, t types.Type, st *State) (string, interface{}, error) {
@@ -234,7 +249,7 @@ func (w *World) modelValue(o *Obligation, x string, t types.Type, st *State) (st
 				return "", nil, fmt.Errorf("no integer value for %s", x)
 			}
 			n = signedOf(n, t)
-			return fmt.Sprintf("%s(%s)", types.TypeString(t, func(p *types.Package) string { return "" }), n.String()), n.String(), nil
+			return fmt.Sprintf("%s(%s)", w.goTypeName(c, t), n.String()), n.String(), nil
 		case u.Info()&types.IsString != 0:
 			vs, err := getValues(o, []string{"(slen " + x + ")"}, 20)
 			if err != nil {
@@ -311,7 +326,7 @@ func (w *World) modelValue(o *Obligation, x string, t types.Type, st *State) (st
 			parts = append(parts, n.String())
 			js = append(js, n.String())
 		}
-		tn := types.TypeString(t, func(p *types.Package) string { return "" })
+		tn := w.goTypeName(c, t)
 		goExpr := fmt.Sprintf("append(make(%s, 0, %d), %s{%s}...)", tn, cp.Int64(), tn, strings.Join(parts, ", "))
 		return goExpr, js, nil
 	case *types.Array:
@@ -334,8 +349,49 @@ func (w *World) modelValue(o *Obligation, x string, t types.Type, st *State) (st
 			}
 			parts = append(parts, signedOf(n, u.Elem()).String())
 		}
-		tn := types.TypeString(t, func(p *types.Package) string { return "" })
+		tn := w.goTypeName(c, t)
 		return fmt.Sprintf("%s{%s}", tn, strings.Join(parts, ", ")), parts, nil
+	case *types.Pointer:
+		stt, ok := u.Elem().Underlying().(*types.Struct)
+		if !ok {
+			return "", nil, fmt.Errorf("pointer to %s not replayable", u.Elem())
+		}
+		vs, err := getValues(o, []string{x}, 20)
+		if err != nil {
+			return "", nil, err
+		}
+		if r, ok := sxInt(vs[x]); ok && r.Sign() == 0 {
+			return "nil", "nil", nil
+		}
+		// a struct literal of the fields whose values the model determines and
+		// the harness can write (other fields keep their zero value)
+		samePkg := func(f *types.Var) bool {
+			return f.Exported() || (f.Pkg() != nil && c.Fn.Pkg != nil && f.Pkg() == c.Fn.Pkg.Pkg)
+		}
+		var parts []string
+		js := map[string]interface{}{}
+		for i := 0; i < stt.NumFields(); i++ {
+			fv := stt.Field(i)
+			ft := fv.Type()
+			if isStruct(ft) || !samePkg(fv) {
+				continue
+			}
+			h, srt := c.fieldHeap(u.Elem(), i)
+			g, j, err := w.modelValue(o, "(select "+c.heapGet(st, h, srt)+" "+x+")", ft, st)
+			if err != nil || g == "" {
+				continue
+			}
+			if _, isPtr := ft.Underlying().(*types.Pointer); isPtr && g != "nil" {
+				continue
+			}
+			if g == "nil" {
+				continue
+			}
+			parts = append(parts, fv.Name()+": "+g)
+			js[fv.Name()] = j
+		}
+		tn := w.goTypeName(c, u.Elem())
+		return "&" + tn + "{" + strings.Join(parts, ", ") + "}", js, nil
 	case *types.Interface:
 		// only nil-ness is meaningful
 		tt := "(= (if.typ " + x + ") 0)"
@@ -395,6 +451,9 @@ func (w *World) writeReplay(dir, id string, r *Result, why string) (string, bool
 
 func (w *World) buildReplay(dir, id string, r *Result, why string) *replayFile {
 	o := r.Obl
+	if r.FailedPart != nil {
+		o = r.FailedPart
+	}
 	rf := &replayFile{Property: id, Obligation: o.Name, Kind: o.Kind, Function: o.Func, Where: w.posString(o.Pos), Clause: o.Text, Reason: why, Solver: r.Solver, Status: r.Status, Query: r.Query}
 	if len(r.Model) > 0 {
 		rf.SolverOut = firstLines(r.Model, 3)
@@ -419,11 +478,21 @@ func (w *World) buildReplay(dir, id string, r *Result, why string) *replayFile {
 		return tmpl(w, dir, id, r, rf)
 	}
 	tm := w.recvTemplate(fn)
-	if (fn.Signature.Recv() != nil && tm == nil) || len(fn.FreeVars) > 0 || fn.Parent() != nil {
+	genericRecv := false
+	if fn.Signature.Recv() != nil && tm == nil {
+		// a pointer-to-struct receiver is rebuilt from the model like any other
+		// struct argument
+		if pt, ok := fn.Signature.Recv().Type().Underlying().(*types.Pointer); ok && isStruct(pt.Elem()) {
+			genericRecv = true
+		}
+	}
+	if (fn.Signature.Recv() != nil && tm == nil && !genericRecv) || len(fn.FreeVars) > 0 || fn.Parent() != nil {
 		rf.ReplayNote = "function has a receiver without a replay template, or is a closure: no replay harness"
 		return rf
 	}
 	var argExprs []string
+	frameChecks := ""
+	w.replayImports = map[string]string{}
 	rf.Inputs = map[string]interface{}{}
 	entry := &State{H: map[string]string{}}
 	setup := ""
@@ -451,12 +520,35 @@ func (w *World) buildReplay(dir, id string, r *Result, why string) *replayFile {
 		params = fn.Params[1:]
 		callee = "recv." + fn.Name()
 	}
+	if genericRecv {
+		rp := fn.Params[0]
+		v := c.paramVals[rp.Name()]
+		g, js, err := w.modelValue(o, v.T, rp.Type(), entry)
+		if err != nil || g == "" || g == "nil" {
+			rf.ReplayNote = fmt.Sprintf("receiver %s not replayable: %v", rp.Name(), err)
+			return rf
+		}
+		rf.Inputs["receiver "+rp.Name()] = js
+		setup += "\trecv := " + g + "\n"
+		params = fn.Params[1:]
+		callee = "recv." + fn.Name()
+	}
 	for _, p := range params {
 		v := c.paramVals[p.Name()]
 		g, js, err := w.modelValue(o, v.T, p.Type(), entry)
 		if err != nil || g == "" {
 			rf.ReplayNote = fmt.Sprintf("input %s not replayable: %v", p.Name(), err)
 			return rf
+		}
+		if sl, ok := p.Type().Underlying().(*types.Slice); ok && g != "nil" {
+			if _, isInt := intInfoOf(sl.Elem()); isInt {
+				// keep the argument in a variable and remember its whole backing
+				// array, to observe writes the frame forbids
+				an := fmt.Sprintf("govcArg%d", len(argExprs))
+				setup += fmt.Sprintf("\t%s := %s\n\t%sBefore := fmt.Sprint(%s[:cap(%s)])\n", an, g, an, an, an)
+				frameChecks += fmt.Sprintf("\tif fmt.Sprint(%s[:cap(%s)]) != %sBefore {\n\t\tfmt.Printf(\"GOVC-REPLAY-FRAME argument %s: backing array changed from %%s to %%v\\n\", %sBefore, %s[:cap(%s)])\n\t}\n", an, an, an, p.Name(), an, an, an)
+				g = an
+			}
 		}
 		argExprs = append(argExprs, g)
 		rf.Inputs[p.Name()] = js
@@ -468,8 +560,11 @@ func (w *World) buildReplay(dir, id string, r *Result, why string) *replayFile {
 		for i, rt := range c.retMerged {
 			_, js, err := w.modelValue(o, rt.T, rt.Typ, c.retState)
 			if err != nil {
-				rf.ReplayNote = fmt.Sprintf("predicted output %d not extractable: %v", i, err)
-				return rf
+				// (typical for candidate models of the quantifier-free relaxation)
+				// no prediction: the clause is decided on the observed outputs
+				predicted = nil
+				rf.Predicted = map[string]interface{}{"note": fmt.Sprintf("output %d not extractable from the model: %v", i, err)}
+				break
 			}
 			predicted = append(predicted, js)
 			rf.Predicted[fmt.Sprintf("result%d", i)] = js
@@ -480,6 +575,12 @@ func (w *World) buildReplay(dir, id string, r *Result, why string) *replayFile {
 	for i := 0; i < fn.Signature.Results().Len(); i++ {
 		resNames = append(resNames, fmt.Sprintf("r%d", i))
 		prints = append(prints, fmt.Sprintf("govcShow(r%d)", i))
+	}
+	for path := range w.replayImports {
+		if path == "fmt" || path == "testing" || path == "encoding/json" || strings.Contains(extraImports, "\""+path+"\"") {
+			continue
+		}
+		extraImports += fmt.Sprintf("\t%q\n", path)
 	}
 	callStmt := fmt.Sprintf("%s(%s)", callee, strings.Join(argExprs, ", "))
 	if len(resNames) > 0 {
@@ -525,11 +626,11 @@ func TestGovcReplay(t *testing.T) {
 		}
 	}()
 %s	%s
-	outs := []interface{}{%s}
+%s	outs := []interface{}{%s}
 	js, _ := json.Marshal(outs)
 	fmt.Printf("GOVC-REPLAY-OUT %%s\n", js)
 }
-`, fn.Pkg.Pkg.Name(), extraImports, setup, callStmt, strings.Join(prints, ", "))
+`, fn.Pkg.Pkg.Name(), extraImports, setup, callStmt, frameChecks, strings.Join(prints, ", "))
 	testPath := filepath.Join(dir, safeName(o.Name)+"_test.go")
 	os.WriteFile(testPath, []byte(src), 0644)
 	rf.TestFile = testPath
@@ -548,6 +649,12 @@ func TestGovcReplay(t *testing.T) {
 				// a panic where the contract promises a normal return also violates a postcondition
 				rf.Reproduced = o.Kind == "ensures"
 			}
+		}
+		if strings.HasPrefix(line, "GOVC-REPLAY-FRAME") && o.Kind == "frame" {
+			rf.Observed = line
+			rf.Reproduced = true
+			rf.ReplayNote = "the call changed memory of an argument that the assigns clause does not list"
+			return rf
 		}
 		if strings.HasPrefix(line, "GOVC-REPLAY-OUT ") {
 			rf.Observed = line
